@@ -13,6 +13,7 @@
 import SpyneModel.Schema
 namespace SpyneModel
 namespace Schema
+open Xml
 
 /-- what the method table adds (measured from `interface.service_method_map` / `interface.classes`) -/
 structure Methods where
@@ -20,6 +21,9 @@ structure Methods where
   elems : List (Text × Key) := []
   /-- classes registered as a message copy (`sub_name` set): no element under their own name -/
   noElem : List Key := []
+  /-- request / response elements whose message is an uncustomised primitive (`_returns=Integer` of a
+      bare / out_bare method): local name ↦ XSD built-in -/
+  prims : List (Text × Builtin) := []
   deriving Repr, Inhabited
 
 def Schema.withMethods (S : Schema) (M : Methods) : Schema :=
@@ -28,6 +32,21 @@ def Schema.withMethods (S : Schema) (M : Methods) : Schema :=
   { S with
     elements := kept ++ dedupKeys added,
     imports := dedupL (S.imports ++ M.elems.filterMap (fun m => if m.2.1 = S.tns then none else some (S.tns, m.2.1))) }
+
+/-- validity of a document against the set with the method elements: a root declared with a built-in
+    type is checked against that type, every other root as before -/
+def Schema.validM (S : Schema) (M : Methods) (x : Node) : Bool :=
+  match (if (nodeKey x).1 = S.tns then M.prims.lookup (nodeKey x).2 else none) with
+  | some b => validElem S (.builtin b) false x
+  | none => (S.withMethods M).valid x
+
+/-- the element name `XmlDocument.serialize` gives a response that is not wrapped -/
+def bareRootName (F : Facts06) (subName typeName : Text) : Text :=
+  if F.bareRootIsSubName then subName else typeName
+
+/-- the root `(namespace, name)` is a global element of the set (class / simple typed or built-in typed) -/
+def Schema.declaresRoot (S : Schema) (M : Methods) (k : Key) : Bool :=
+  ((S.withMethods M).elements.lookup k).isSome || (k.1 = S.tns && (M.prims.lookup k.2).isSome)
 
 /-- the method table names defined types -/
 def Methods.ok (M : Methods) (S : Schema) : Bool :=
